@@ -8,25 +8,26 @@ from vlib import Infra, log, read_ndjson, VERIF
 
 # (leaves, depth, width, onlyConv) per tier and purpose
 UNIVERSES = {
-    # C03 needs every pair (also the unconvertible ones)
-    ("C03", "quick"): [("LeavesQuick", 1, 1, False), ("AllBasics", 0, 1, False)],
-    ("C03", "thorough"): [("LeavesFull", 1, 1, False), ("LeavesDeep", 2, 1, False)],
+    # (leaves, depth, value width, only generating pairs, pair mode)
+    # C03 needs every pair (also the unconvertible ones); "paired" adds deep related pairs
+    ("C03", "quick"): [("LeavesQuick", 1, 1, False, "all"), ("AllBasics", 0, 1, False, "all"), ("LeavesPair", 2, 1, False, "paired")],
+    ("C03", "thorough"): [("LeavesFull", 1, 1, False, "all"), ("LeavesDeep", 2, 1, False, "all"), ("LeavesVal", 3, 1, False, "paired")],
+    ("C13", "quick"): [("LeavesOdd", 1, 1, False, "all")],
+    ("C13", "thorough"): [("LeavesFull", 1, 1, False, "all")],
     # value-level properties only need the pairs that generate; they can afford deeper types and wider values
-    ("C13", "quick"): [("LeavesOdd", 1, 1, False)],
-    ("C13", "thorough"): [("LeavesFull", 1, 1, False)],
-    ("VAL", "quick"): [("LeavesQuick", 1, 2, True), ("LeavesTiny", 2, 1, True)],
-    ("VAL", "thorough"): [("LeavesFull", 1, 2, True), ("LeavesDeep", 2, 2, True)],
+    ("VAL", "quick"): [("LeavesVal", 1, 2, True, "all"), ("LeavesTiny", 2, 1, True, "all"), ("LeavesPair", 2, 1, True, "paired")],
+    ("VAL", "thorough"): [("LeavesFull", 1, 2, True, "all"), ("LeavesDeep", 2, 2, True, "all"), ("LeavesVal", 3, 1, True, "paired"), ("LeavesMini", 4, 1, True, "paired")],
 }
 
 
-def mc_cfg(leaves, depth, width):
-    return ("SPECIFICATION Spec\nCONSTANTS\n  Leaves <- %s\n  Depth = %d\n  Width = %d\n"
-            "INVARIANTS A_C03 A_C02 A_C02strict A_C04\nCHECK_DEADLOCK FALSE\n" % (leaves, depth, width))
+def mc_cfg(leaves, depth, width, mode):
+    return ("SPECIFICATION Spec\nCONSTANTS\n  Leaves <- %s\n  Depth = %d\n  Width = %d\n  Mode = \"%s\"\n"
+            "INVARIANTS A_C03 A_C02 A_C02strict A_C04 A_C04strict\nCHECK_DEADLOCK FALSE\n" % (leaves, depth, width, mode))
 
 
-def export_cfg(leaves, depth, width, only, out, part, parts):
+def export_cfg(leaves, depth, width, only, out, part, parts, mode):
     return ("INIT Init\nNEXT Next\nCONSTANTS\n  Leaves <- %s\n  Depth = %d\n  Width = %d\n  OutFile = \"%s\"\n"
-            "  Part = %d\n  Parts = %d\n  OnlyConv = %s\nCHECK_DEADLOCK FALSE\n" % (leaves, depth, width, out, part, parts, "TRUE" if only else "FALSE"))
+            "  Part = %d\n  Parts = %d\n  OnlyConv = %s\n  Mode = \"%s\"\nCHECK_DEADLOCK FALSE\n" % (leaves, depth, width, out, part, parts, "TRUE" if only else "FALSE", mode))
 
 
 def pipeline(run, kind, race=False):
@@ -39,16 +40,16 @@ def pipeline(run, kind, race=False):
             return {}, scen, None
     else:
         unis = UNIVERSES[(kind, run.tier)]
-        run.extra["universes"] = [dict(leaves=u[0], depth=u[1], width=u[2], only_generating=u[3]) for u in unis]
+        run.extra["universes"] = [dict(leaves=u[0], depth=u[1], width=u[2], only_generating=u[3], pairs=u[4]) for u in unis]
         parts = 8 if run.tier == "thorough" else 4
         jobs = []
         with cf.ThreadPoolExecutor(max_workers=8) as ex:
-            for (leaves, depth, width, only) in unis:
-                jobs.append(ex.submit(run.model_check, "MC_Rules", mc_cfg(leaves, depth, min(width, 1)), workers=8, timeout=3000))
-                n = parts if depth + (len(leaves) > 10) >= 2 or leaves == "LeavesFull" else 1
+            for (leaves, depth, width, only, mode) in unis:
+                jobs.append(ex.submit(run.model_check, "MC_Rules", mc_cfg(leaves, depth, min(width, 1), mode), workers=8, timeout=3000))
+                n = parts if depth >= 2 or leaves == "LeavesFull" else 1
                 for p in range(n):
                     out = os.path.join(run.scratch, "scen-%s-%d-%d.ndjson" % (leaves, depth, p))
-                    jobs.append(ex.submit(export_one, run, leaves, depth, width, only, out, p, n))
+                    jobs.append(ex.submit(export_one, run, leaves, depth, width, only, out, p, n, mode))
             outs = [j.result() for j in jobs]
         with open(scen, "w") as fh:
             for o in outs:
@@ -60,7 +61,7 @@ def pipeline(run, kind, race=False):
     work = os.path.join(run.scratch, "work")
     args = ["rules", "-scen", scen, "-obs", obs, "-work", work]
     if race:
-        args += ["-race", "-race-every", "1" if run.tier == "thorough" else "3"]
+        args += ["-race", "-race-every", "2" if run.tier == "thorough" else "5"]
     summ = run.harness(args, timeout=7200)
     run.fam = "rules"
     run.scen_files["rules"] = scen
@@ -68,8 +69,8 @@ def pipeline(run, kind, race=False):
     return summ, scen, obs
 
 
-def export_one(run, leaves, depth, width, only, out, part, parts):
-    o = run.tlc("Export_Rules", export_cfg(leaves, depth, width, only, out, part, parts), workers=1, timeout=3000, role="export")
+def export_one(run, leaves, depth, width, only, out, part, parts, mode):
+    o = run.tlc("Export_Rules", export_cfg(leaves, depth, width, only, out, part, parts, mode), workers=1, timeout=3000, role="export")
     if "exported" not in o:
         raise Infra("export failed:\n" + o[-3000:])
     return out
